@@ -9,26 +9,36 @@ ALL = [f"C{k:02d}" for k in range(1, 21)]
 CHECKS = {
     "C07": dict(
         text=("Proof (Lean 4): exact cover of every time step by exactly one window centre (days of year: any multiset of days, "
-              "any odd step; years: any set of years incl. leap-only sets), adjust-set ⊆ calibration window, normalisation of lengths. "
-              "The integer kernels are regenerated from /repo on every run (tier A) and proved equal to the model; the slicing / write-back "
-              "skeletons of all window-using debiasers are compared with the real apply_location through integer probes (tier B); the real "
-              "eight debiasers are run on random calendar spans and must return finite values under the NaN-fill hook."),
-        note=("Trusted: Lean kernel + propext/Classical.choice/Quot.sound; translator; numpy fancy-index semantics; calendar arithmetic by Python. "
-              "The lift from the kernel theorems to `apply_location returns some at every index` is carried by the tier-B skeleton correspondence "
-              "until the skeleton theorem (Props.C07.apply_all_some) is proved."),
-        technique="Lean 4 proof over Int kernels regenerated from source + differential correspondence",
+              "any odd step; years: any set of years incl. leap-only sets), adjust-set ⊆ calibration window, normalisation of lengths; "
+              "for an arbitrary element type and an arbitrary per-window function the write-back skeletons of all five loops (RunningWindowDebiaser, "
+              "DeltaChange, ISIMIP running-window and month mode, CDFt/QDM year loop) return a defined value at every index and write every index exactly once "
+              "(applyLocation*_all_some, applyLocationRW_written_once). Calendar: every date has a day of year in 1..365/366, successor-day law, every day of year "
+              "present in a whole year (366 exactly in leap years), the calendar inferred for omitted time arrays (two independent models proved to agree). "
+              "The integer kernels are regenerated from /repo on every run (tier A) and proved equal to the model; the skeletons are compared with the real "
+              "apply_location through integer probes, the calendar with ibicus.utils.day_of_year/month/year/season in every accepted time encoding (tier B); the real "
+              "eight debiasers are run on random calendar spans and must return finite values under the NaN-fill hook; every step must hold the value computed by "
+              "the window it is assigned to (assignment oracle)."),
+        note=("Trusted: Lean kernel + propext/Classical.choice/Quot.sound; translator; numpy fancy-index semantics; Python's datetime for the harness' own calendar. "
+              "`use` (a generator) and the loops of apply_location are hand-modelled (Model/Skeleton.lean) and tied by tier B, not translated; the loop bodies read only the "
+              "inputs (modelled as compute-writes-then-apply). Finite output of the real debiasers is an oracle clause (scipy fits are outside the model)."),
+        technique="Lean 4 proof over Int kernels regenerated from source + polymorphic write-back skeleton + calendar model + differential correspondence",
         design="§4 C07",
     ),
     "C08": dict(
         text=("Proof (Lean 4), layer S — for an arbitrary element type and an arbitrary per-window function, hence bit-for-bit: the calibration "
               "sample of a centre is exactly the set of steps within L//2 days (circularly, with the code's 366-wrap) of it; two runs whose inputs agree "
               "on every step within L//2+S//2 days of the target day return the same value at the target step (RunningWindowDebiaser / ISIMIP loop and "
-              "DeltaChange). Tied to the code by the regenerated window kernels (tier A), by the skeleton correspondence through integer probes, and by "
-              "re-assembling the real apply_location result from the model's index sets with the real per-window functions (bitwise). The oracle perturbs "
-              "(x3, +1e6, NaN) everything outside the neighbourhood on the real debiasers and checks that a change at distance exactly L//2 matters."),
+              "DeltaChange), for every list of days of year (any storage order, partial-year records, inferred calendars). Calendar facts as in C07. Tied to the code by the "
+              "regenerated window kernels (tier A), by the skeleton correspondence through integer probes, by the calendar correspondence, and by re-assembling the real "
+              "apply_location result from the model's index sets with the real per-window functions (bitwise). The oracle perturbs (x3, +1e6, NaN, a few corrupt 'spike' values) "
+              "everything outside the neighbourhood of a target day on the eight real debiasers plus nine further deterministic configurations (multiplicative, relative SDM, "
+              "censored-gamma models on all-wet data, gamma QM, ISIMIP psl/rlds) in seven scenarios (unequal / aligned calendars, instances reconfigured by assignment, "
+              "time arrays given for some series only, reference records covering part of the year, non-chronological storage) and checks that a change at distance exactly L//2 matters."),
         note=("Trusted: Lean kernel + standard axioms; translator; numpy fancy-index semantics; the loop body reads only inputs (modelled as compute-writes-then-apply). "
-              "Deterministic configurations only; ISIMIP's rsds step 1/8 (annual cycle over the whole series) is outside the quantifier."),
-        technique="Lean 4 proof over a polymorphic write-back skeleton + differential correspondence",
+              "Deterministic configurations only (the property's quantifier): configurations that draw random numbers are used only on data for which no draw influences the result; "
+              "ISIMIP's rsds step 1/8 (annual cycle over the whole series) is outside the quantifier. State carried between windows by the real code (fallback flags, warm starts, caches) "
+              "cannot be exhibited by the pure skeleton: decided by the oracle on the real code."),
+        technique="Lean 4 proof over the polymorphic write-back skeleton + calendar model + differential correspondence and bitwise re-assembly",
         design="§4 C08",
     ),
     "C05": dict(
@@ -209,8 +219,10 @@ CHECKS = {
               "Instantiation: every window function of the eight debiasers is proved to be of that form (LinearScaling, DeltaChange, parametric and non-parametric QuantileMapping, ECDFM, QDM, CDFt for all method pairs without tie-freeness, SDM absolute and relative and ISIMIP step 6 "
               "under the tie-free guard), and the seasonal + year-window composition of CDFt / QDM is proved on dated pairs (value, year). Tier A: window kernels and LS / DC kernels; tier B: skeleton probes on shuffled inputs and layer-N correspondences; "
               "oracle: random / block / rotate / reverse permutations on all eight real debiasers incl. year windows, ISIMIP month mode and pr."),
-        note=("PARTIAL for the whole ISIMIP window: proved without a bound/threshold pair (step 4's rank re-insertion of sorted draws is exercised by seeded oracle cases only), with the same oracle decisions (KS, significance) in every window, and for detrending under tie-free detrended window samples. "
-              "Rank-based statements carry Nodup (the property's own guard; np.argsort is not stable). CDFt SSR is random and excluded."),
+        note=("After the round-4 audit the ISIMIP running-window and month loops are proved time-order equivariant for every configuration (bounds, thresholds, per-window oracle decisions and draws keyed on the window; "
+              "steps 1/8 by sorted unique day of year; step 4 via sort_array_like_another_one). STILL PARTIAL: detrending=True at loop level with separate year lists is proved on dated pairs (value, year) only, and step 2 imputation is not modelled "
+              "(the oracle feeds no NaN). Rank-based statements carry Nodup (the property's own guard; np.argsort is not stable). Draws attached to array positions (CDFt SSR, hurdle randomisation, the cdf of censored values) make the result equivariant in "
+              "distribution only; those steps are excluded from the comparison."),
         technique="Lean 4 proof over the polymorphic write-back skeleton + per-debiaser instantiation + differential correspondence on permuted inputs",
         design="§4 C06",
     ),
